@@ -74,8 +74,10 @@ pub enum Res {
 type SrvFut = Pin<Box<dyn Future<Output = (Res, Option<Box<dyn Rw>>)>>>;
 
 pub struct Acceptors {
-    rustls: acc_rustls::AcceptorService,
-    openssl: acc_openssl::AcceptorService,
+    /// two services of each back-end, all built on this thread (an actix-server worker has one
+    /// service per TLS listener)
+    rustls: [acc_rustls::AcceptorService; 2],
+    openssl: [acc_openssl::AcceptorService; 2],
 }
 
 pub struct Pki {
@@ -107,22 +109,32 @@ impl Acceptors {
         r.set_handshake_timeout(timeout);
         let mut o = acc_openssl::Acceptor::new(tlsutil::openssl_acceptor(&pki.leaf));
         o.set_handshake_timeout(timeout);
-        let rustls = now_or_panic(ServiceFactory::<End>::new_service(&r, ())).unwrap();
-        let openssl = now_or_panic(ServiceFactory::<End>::new_service(&o, ())).unwrap();
+        let mut mk_r = || now_or_panic(ServiceFactory::<End>::new_service(&r, ())).unwrap();
+        let rustls = [mk_r(), mk_r()];
+        let mut mk_o = || now_or_panic(ServiceFactory::<End>::new_service(&o, ())).unwrap();
+        let openssl = [mk_o(), mk_o()];
         Acceptors { rustls, openssl }
     }
 
     pub fn poll_ready(&self, kind: Kind, cx: &mut Context<'_>) -> Poll<bool> {
+        self.poll_ready_i(kind, 0, cx)
+    }
+
+    pub fn poll_ready_i(&self, kind: Kind, inst: usize, cx: &mut Context<'_>) -> Poll<bool> {
         match kind {
-            Kind::Rustls => Service::<End>::poll_ready(&self.rustls, cx).map(|r| r.is_ok()),
-            Kind::Openssl => Service::<End>::poll_ready(&self.openssl, cx).map(|r| r.is_ok()),
+            Kind::Rustls => Service::<End>::poll_ready(&self.rustls[inst], cx).map(|r| r.is_ok()),
+            Kind::Openssl => Service::<End>::poll_ready(&self.openssl[inst], cx).map(|r| r.is_ok()),
         }
     }
 
     pub fn call(&self, kind: Kind, io: End) -> SrvFut {
+        self.call_i(kind, 0, io)
+    }
+
+    pub fn call_i(&self, kind: Kind, inst: usize, io: End) -> SrvFut {
         match kind {
             Kind::Rustls => {
-                let f = self.rustls.call(io);
+                let f = self.rustls[inst].call(io);
                 Box::pin(async move {
                     match f.await {
                         Ok(s) => (Res::Ok, Some(Box::new(s) as Box<dyn Rw>)),
@@ -133,7 +145,7 @@ impl Acceptors {
                 })
             }
             Kind::Openssl => {
-                let f = self.openssl.call(io);
+                let f = self.openssl[inst].call(io);
                 Box::pin(async move {
                     match f.await {
                         Ok(s) => (Res::Ok, Some(Box::new(s) as Box<dyn Rw>)),
@@ -220,8 +232,12 @@ struct Pair {
 
 impl Pair {
     fn new(acc: &Acceptors, kind: Kind, pki: &Pki, silent_client: bool) -> Pair {
+        Pair::new_i(acc, kind, 0, pki, silent_client)
+    }
+
+    fn new_i(acc: &Acceptors, kind: Kind, inst: usize, pki: &Pki, silent_client: bool) -> Pair {
         let (client_end, server_end, ctl) = pipe(); // client writes dir 0, server writes dir 1
-        let server = acc.call(kind, server_end);
+        let server = acc.call_i(kind, inst, server_end);
         let client: Option<Pin<Box<dyn Future<Output = io::Result<Box<dyn Rw>>>>>> = if silent_client {
             // keep the client end alive without ever writing
             let keep = client_end;
@@ -424,7 +440,9 @@ fn echo(ctl: &Control, mut srv: Box<dyn Rw>, mut cli: Box<dyn Rw>, size: usize, 
         let mut rfut = Box::pin(async { if size == 0 { Ok(0) } else { r.read_exact(&mut got).await } });
         let (wf, rf) = (Flag::new(), Flag::new());
         let (mut wdone, mut rdone) = (false, false);
-        for _ in 0..(size / chunk.max(1) + 200) * 4 {
+        let cap = ctl.0.borrow().dir[dir].capacity;
+        let per_round = chunk.min(if cap == 0 { usize::MAX } else { cap }).max(1);
+        for _ in 0..(size * 2 / per_round + 200) * 4 {
             if !wdone && wf.take() {
                 let wk = Waker::from(wf.clone());
                 if let Poll::Ready(r) = wfut.as_mut().poll(&mut Context::from_waker(&wk)) {
@@ -517,8 +535,9 @@ fn check_handshake(c: &HsCase, o: &HsOut) -> Option<(String, String)> {
 
 #[derive(Clone, Copy, Debug, PartialEq, Eq)]
 pub enum COp {
-    Ready,
-    Call,
+    /// `poll_ready` / `call` of service slot s of the configuration
+    Ready(usize),
+    Call(usize),
     PollFut(usize),
     EndTimeout,
     EndGarbage(usize),
@@ -531,10 +550,10 @@ fn conc_ops_json(ops: &[COp]) -> Value {
 
 fn cop_from(s: &str) -> COp {
     let num = |s: &str| -> usize { s.chars().filter(|c| c.is_ascii_digit()).collect::<String>().parse().unwrap_or(0) };
-    if s == "Ready" {
-        COp::Ready
-    } else if s == "Call" {
-        COp::Call
+    if s.starts_with("Ready") {
+        COp::Ready(num(s))
+    } else if s.starts_with("Call") {
+        COp::Call(num(s))
     } else if s == "EndTimeout" {
         COp::EndTimeout
     } else if s.starts_with("PollFut") {
@@ -549,11 +568,12 @@ fn cop_from(s: &str) -> COp {
 struct Conc<'a> {
     rt: &'a tokio::runtime::Runtime,
     acc: Acceptors,
-    kind: Kind,
+    /// the services of this configuration, all on this thread: (back-end, instance)
+    svcs: Vec<(Kind, usize)>,
     limit: usize,
     pki: &'a Pki,
     live: Vec<Option<Pair>>,
-    may_call: bool,
+    may_call: Vec<bool>,
     /// waker of the last poll_ready that answered Pending
     parked: Option<Arc<Flag>>,
 }
@@ -564,39 +584,56 @@ impl<'a> Conc<'a> {
     }
 
     fn step(&mut self, op: COp) -> Option<(String, String)> {
-        let k = format!("{:?}", self.kind).to_lowercase();
+        let slot = match op {
+            COp::Ready(s) | COp::Call(s) => s,
+            _ => 0,
+        };
+        let mut k = format!("{:?}", self.svcs[slot].0).to_lowercase();
+        if self.svcs.len() > 1 {
+            k = format!("{k}:two-services-on-one-thread");
+        }
         let before = self.in_flight();
         let mut expect_wake = false;
         match op {
-            COp::Ready => {
-                let f = Flag::new();
-                f.take();
+            COp::Ready(s) => {
+                // one task polls every service of the thread (as an actix-server worker does)
+                let f = match &self.parked {
+                    Some(f) if f.wakes() == 0 => f.clone(),
+                    _ => {
+                        let f = Flag::new();
+                        f.take();
+                        f
+                    }
+                };
                 let w = Waker::from(f.clone());
-                let r = self.acc.poll_ready(self.kind, &mut Context::from_waker(&w));
+                let (kind, inst) = self.svcs[s];
+                let r = self.acc.poll_ready_i(kind, inst, &mut Context::from_waker(&w));
                 let want_ready = before < self.limit;
                 match r {
                     Poll::Ready(ok) => {
                         if !want_ready {
-                            return Some((format!("C18:ready-at-the-limit:{k}"), format!("poll_ready reported ready with {before} handshakes in progress, limit {}", self.limit)));
+                            return Some((format!("C18:ready-at-the-limit:{k}"), format!("poll_ready of service {s} ({:?}) reported ready with {before} handshakes in progress on its thread, limit {}", self.svcs[s], self.limit)));
                         }
                         if !ok {
                             return Some((format!("C18:ready-error:{k}"), "poll_ready returned an error".into()));
                         }
-                        self.may_call = true;
+                        self.may_call[s] = true;
                     }
                     Poll::Pending => {
                         if want_ready {
                             return Some((format!("C18:not-ready-below-the-limit:{k}"), format!("poll_ready is pending with only {before} handshakes in progress, limit {}", self.limit)));
                         }
                         self.parked = Some(f);
-                        self.may_call = false;
+                        self.may_call[s] = false;
                     }
                 }
             }
-            COp::Call => {
-                self.may_call = false;
+            COp::Call(s) => {
+                // a call consumes the readiness of every service: they share the thread's budget
+                self.may_call.iter_mut().for_each(|m| *m = false);
                 let _g = self.rt.enter();
-                let p = Pair::new(&self.acc, self.kind, self.pki, true);
+                let (kind, inst) = self.svcs[s];
+                let p = Pair::new_i(&self.acc, kind, inst, self.pki, true);
                 self.live.push(Some(p));
             }
             COp::PollFut(i) => {
@@ -642,9 +679,12 @@ impl<'a> Conc<'a> {
     }
 
     fn enabled(&self) -> Vec<COp> {
-        let mut v = vec![COp::Ready];
-        if self.may_call && self.live.len() < 5 {
-            v.push(COp::Call);
+        let mut v = vec![];
+        for s in 0..self.svcs.len() {
+            v.push(COp::Ready(s));
+            if self.may_call[s] && self.live.len() < 5 {
+                v.push(COp::Call(s));
+            }
         }
         let pending: Vec<usize> = self.live.iter().enumerate().filter(|(_, p)| p.as_ref().map_or(false, |p| p.sres.is_none())).map(|(i, _)| i).collect();
         for i in &pending {
@@ -659,13 +699,13 @@ impl<'a> Conc<'a> {
     }
 }
 
-fn run_conc_seq(pki: &Pki, kind: Kind, limit: usize, ops: &[COp]) -> (Option<(String, String)>, Vec<COp>) {
+fn run_conc_seq(pki: &Pki, svcs: &[(Kind, usize)], limit: usize, ops: &[COp]) -> (Option<(String, String)>, Vec<COp>) {
     let rt = tokio::runtime::Builder::new_current_thread().enable_all().start_paused(true).build().unwrap();
     let acc = {
         let _g = rt.enter();
         Acceptors::new(pki, Duration::from_millis(1000))
     };
-    let mut c = Conc { rt: &rt, acc, kind, limit, pki, live: vec![], may_call: false, parked: None };
+    let mut c = Conc { rt: &rt, acc, svcs: svcs.to_vec(), limit, pki, live: vec![], may_call: vec![false; svcs.len()], parked: None };
     for op in ops {
         let _g = rt.enter();
         if let Some(b) = c.step(*op) {
@@ -681,14 +721,18 @@ fn run_conc_seq(pki: &Pki, kind: Kind, limit: usize, ops: &[COp]) -> (Option<(St
     (None, en)
 }
 
-fn conc_dfs(pki: &Pki, kind: Kind, limit: usize, seq: &mut Vec<COp>, depth: usize, bag: &mut VioBag, count: &mut u64, armed: &mut u64) {
-    let (bad, enabled) = run_conc_seq(pki, kind, limit, seq);
+fn svcs_json(svcs: &[(Kind, usize)]) -> Value {
+    Value::Array(svcs.iter().map(|(k, i)| json!([format!("{:?}", k), i])).collect())
+}
+
+fn conc_dfs(pki: &Pki, svcs: &[(Kind, usize)], limit: usize, seq: &mut Vec<COp>, depth: usize, bag: &mut VioBag, count: &mut u64, armed: &mut u64) {
+    let (bad, enabled) = run_conc_seq(pki, svcs, limit, seq);
     *count += 1;
     if let Some((sig, msg)) = bad {
-        bag.add(&sig.clone(), || Violation { signature: sig.clone(), summary: format!("limit {limit}: {msg}"), replay: json!({"part": "concurrency", "kind": format!("{:?}", kind), "limit": limit, "ops": conc_ops_json(seq)}) });
+        bag.add(&sig.clone(), || Violation { signature: sig.clone(), summary: format!("limit {limit}: {msg}"), replay: json!({"part": "concurrency", "services": svcs_json(svcs), "limit": limit, "ops": conc_ops_json(seq)}) });
         return;
     }
-    if seq.iter().filter(|o| **o == COp::Call).count() >= limit {
+    if seq.iter().filter(|o| matches!(o, COp::Call(_))).count() >= limit {
         *armed += 1;
     }
     if seq.len() == depth {
@@ -696,11 +740,11 @@ fn conc_dfs(pki: &Pki, kind: Kind, limit: usize, seq: &mut Vec<COp>, depth: usiz
     }
     for op in enabled {
         // poll_ready twice in a row adds nothing
-        if op == COp::Ready && seq.last() == Some(&COp::Ready) {
+        if matches!(op, COp::Ready(_)) && seq.last() == Some(&op) {
             continue;
         }
         seq.push(op);
-        conc_dfs(pki, kind, limit, seq, depth, bag, count, armed);
+        conc_dfs(pki, svcs, limit, seq, depth, bag, count, armed);
         seq.pop();
     }
 }
@@ -727,14 +771,18 @@ pub fn run(args: &Args) -> i32 {
                 rep.violation(Violation { signature: s, summary: m, replay: r.clone() });
             }
         } else if r["part"] == "concurrency" {
-            let kind = if r["kind"] == "Openssl" { Kind::Openssl } else { Kind::Rustls };
+            let kind_of = |v: &Value| if v == "Openssl" { Kind::Openssl } else { Kind::Rustls };
+            let svcs: Vec<(Kind, usize)> = match r["services"].as_array() {
+                Some(a) => a.iter().map(|s| (kind_of(&s[0]), s[1].as_u64().unwrap() as usize)).collect(),
+                None => vec![(kind_of(&r["kind"]), 0)],
+            };
             let limit = r["limit"].as_u64().unwrap() as usize;
             let ops: Vec<COp> = r["ops"].as_array().unwrap().iter().map(|o| cop_from(o.as_str().unwrap())).collect();
             let r2 = r.clone();
             let v = std::thread::spawn(move || {
                 actix_tls::accept::max_concurrent_tls_connect(limit);
                 let pki = Pki::new();
-                run_conc_seq(&pki, kind, limit, &ops).0
+                run_conc_seq(&pki, &svcs, limit, &ops).0
             })
             .join()
             .unwrap();
@@ -838,24 +886,36 @@ pub fn run(args: &Args) -> i32 {
 
     // ---- (b) concurrency limit: each limit in fresh threads
     let depth = args.opt_usize("depth", args.tier.pick(6, 8));
+    let depth2 = args.opt_usize("depth2", args.tier.pick(5, 7));
     let mut conc_seqs = 0u64;
     let mut conc_armed = 0u64;
+    let mut two_service_seqs = 0u64;
     for limit in 1..=3usize {
         actix_tls::accept::max_concurrent_tls_connect(limit);
-        let handles: Vec<_> = [Kind::Rustls, Kind::Openssl]
+        // one service, and every pair of services that can share a worker thread
+        let mut configs: Vec<(Vec<(Kind, usize)>, usize)> = vec![(vec![(Kind::Rustls, 0)], depth), (vec![(Kind::Openssl, 0)], depth)];
+        if limit <= 2 {
+            configs.push((vec![(Kind::Rustls, 0), (Kind::Openssl, 0)], depth2));
+            configs.push((vec![(Kind::Openssl, 0), (Kind::Openssl, 1)], depth2));
+            configs.push((vec![(Kind::Rustls, 0), (Kind::Rustls, 1)], depth2));
+        }
+        let handles: Vec<_> = configs
             .into_iter()
-            .map(|kind| {
+            .map(|(svcs, depth)| {
                 std::thread::spawn(move || {
                     let pki = Pki::new();
                     let mut bag = VioBag::default();
                     let (mut n, mut armed) = (0u64, 0u64);
-                    conc_dfs(&pki, kind, limit, &mut vec![], depth, &mut bag, &mut n, &mut armed);
-                    (bag, n, armed)
+                    conc_dfs(&pki, &svcs, limit, &mut vec![], depth, &mut bag, &mut n, &mut armed);
+                    (bag, n, armed, svcs.len())
                 })
             })
             .collect();
         for h in handles {
-            let (b, n, a) = h.join().unwrap();
+            let (b, n, a, nsvc) = h.join().unwrap();
+            if nsvc > 1 {
+                two_service_seqs += n;
+            }
             conc_seqs += n;
             conc_armed += a;
             for (_, (v, _)) in b.map {
@@ -866,6 +926,8 @@ pub fn run(args: &Args) -> i32 {
     rep.set("concurrency_sequences", conc_seqs);
     rep.set("concurrency_sequences_reaching_the_limit", conc_armed);
     rep.set("concurrency_depth", depth);
+    rep.set("concurrency_sequences_with_two_services_on_one_thread", two_service_seqs);
+    rep.set("concurrency_depth_two_services", depth2);
 
     // ---- (c) payloads
     let mut payload_runs = 0u64;
@@ -873,8 +935,8 @@ pub fn run(args: &Args) -> i32 {
         let rt = tokio::runtime::Builder::new_current_thread().enable_all().start_paused(true).build().unwrap();
         for kind in [Kind::Rustls, Kind::Openssl] {
             for size in [0usize, 1, 16383, 16384, 16385, 65536] {
-                for chunk in [usize::MAX, 4096, 1] {
-                    if chunk == 1 && size > 16385 && args.tier == mcutil::Tier::Quick {
+                for (chunk, capacity) in [(usize::MAX, 0usize), (4096, 0), (1, 0), (usize::MAX, 4096), (usize::MAX, 1000), (333, 1000), (usize::MAX, 1)] {
+                    if (chunk == 1 || capacity == 1) && size > 16385 && args.tier == mcutil::Tier::Quick {
                         continue;
                     }
                     payload_runs += 1;
@@ -892,9 +954,12 @@ pub fn run(args: &Args) -> i32 {
                     let k = format!("{:?}", kind).to_lowercase();
                     match (pair.sres.take(), pair.cres.take()) {
                         (Some((Res::Ok, Some(s))), Some(Ok(c))) => {
+                            // back-pressure: the transport takes at most `capacity` unread bytes
+                            pair.ctl.set_capacity(0, capacity);
+                            pair.ctl.set_capacity(1, capacity);
                             if let Err(e) = echo(&pair.ctl, s, c, size, chunk) {
-                                let sig = format!("C18:data-not-intact:{k}");
-                                bag.add(&sig.clone(), || Violation { signature: sig.clone(), summary: format!("{e} (delivered in pieces of {chunk})"), replay: json!({"part": "payload", "kind": k, "size": size, "chunk": chunk}) });
+                                let sig = if capacity == 0 { format!("C18:data-not-intact:{k}") } else { format!("C18:data-not-intact:{k}:transport-with-back-pressure") };
+                                bag.add(&sig.clone(), || Violation { signature: sig.clone(), summary: format!("{e} (delivered in pieces of {chunk}, transport capacity {capacity} (0 = unbounded); the connection stays open after write_all + flush)"), replay: json!({"part": "payload", "kind": k, "size": size, "chunk": chunk, "capacity": capacity}) });
                             }
                         }
                         other => {
@@ -915,7 +980,7 @@ pub fn run(args: &Args) -> i32 {
     rep.set("max_deviations", max_dev);
     rep.set("exhaustive", true);
     rep.sample(json!({"part": "handshake", "kind": "Rustls", "timeout_ms": 1000, "devs": [[0, "AdvanceTo(1, 0)"], [2, "Stall"]], "expect": "client hello arrives at 500 ms, client's Finished never arrives: Timeout exactly when the clock reaches 1000 ms"}));
-    rep.sample(json!({"part": "concurrency", "limit": 1, "ops": ["Ready", "Call", "Ready", "DropFut(0)", "Ready"], "expect": "second poll_ready is Pending (even before the future was polled), dropping the future wakes the waiter, third poll_ready is Ready"}));
+    rep.sample(json!({"part": "concurrency", "limit": 1, "services": [["Rustls", 0]], "ops": ["Ready(0)", "Call(0)", "Ready(0)", "DropFut(0)", "Ready(0)"], "expect": "second poll_ready is Pending (even before the future was polled), dropping the future wakes the waiter, third poll_ready is Ready"}));
     rep.assume("rustls 0.23 and OpenSSL acceptors only; client is tokio-rustls; the pipe delivers bytes only when the explorer says so; timer wake-ups are observed through flag wakers (a future is only polled after it was woken)");
     rep.assume("'random payloads up to 64 KiB' of the quantifier are replaced by deterministic payloads of sizes around the 16 KiB TLS record limit");
     rep.finish()
